@@ -32,6 +32,21 @@ def run(tier):
         elif r["validate"].startswith("safe="):
             ck.violation("generated tables violate RecWF / NoShiftEOF (hypotheses of C07_recover_spec, C07_no_panic_in_recovery, C07_tokens_in_order): %s" % r["validate"],
                          {"bnf": r["text"], "validate": r["validate"], "tables": r["impl_lrtab"], "unchecked": "per-table obligations recWFb / noShiftEOFb"}, found_input=False)
+        if "recexact=0" in r["validate"]:
+            # the property's own words: recovery pops to the topmost state that CAN SHIFT the error symbol; the generated
+            # canRecover flags must mark exactly the states whose entry for `error` is a shift.  Find an input that shows it.
+            shown = None
+            for c in r["cases"]:
+                if c["kind"] == "parse" and "(err " not in c["impl"] and c["impl"].startswith("synerr"):
+                    shown = c
+                    break
+            st["recexact_failures"] = st.get("recexact_failures", 0) + 1
+            ck.violation("the recovery states of the generated tables are not the states that can shift the error symbol (flags vs. `error` column): %s%s"
+                         % (r["validate"], ("; e.g. tokens %s end with `%s` without a recovery attempt" % (shown["w"], shown["impl"][:80])) if shown else ""),
+                         {"bnf": r["text"], "validate": r["validate"], "tables": r["impl_lrtab"], "example": shown["line"] if shown else None},
+                         found_input=shown is not None)
+        else:
+            st["recexact_validated"] = st.get("recexact_validated", 0) + 1
         st["lr1_error_grammars"] += lr1
         stripped = {tuple(c["w"]): c for c in r["cases"] if c["kind"] == "stripped"}
         for c in r["cases"]:
